@@ -424,12 +424,25 @@ def filter_citations(citations: List[CitationBase]) -> List[CitationBase]:
         citations, key=lambda citation: citation.full_span()
     )
     filtered_citations: List[CitationBase] = [sorted_citations[0]]
+    # furthest full span end of the non-reference citations kept so far
+    covered_until = (
+        0
+        if isinstance(sorted_citations[0], ReferenceCitation)
+        else sorted_citations[0].full_span()[1]
+    )
 
     for citation in sorted_citations[1:]:
         last_citation = filtered_citations[-1]
         is_overlapping = overlapping_citations(
             citation.full_span(), last_citation.full_span()
         )
+        if isinstance(citation, ReferenceCitation):
+            # also drop a reference citation that overlaps an earlier
+            # citation which is not the last one kept
+            if not is_overlapping and citation.full_span()[0] < covered_until:
+                continue
+        else:
+            covered_until = max(covered_until, citation.full_span()[1])
         if is_overlapping:
             # In cases overlap, prefer anything to a reference citation
             if isinstance(last_citation, ReferenceCitation):
